@@ -63,3 +63,119 @@ Proof.
     replace (Nat.eqb i j) with false by (symmetry; apply Nat.eqb_neq; assumption).
     reflexivity.
 Qed.
+
+Lemma length_SetBit bs i : length (SetBit bs i) = length bs.
+Proof. apply length_upd. Qed.
+
+Lemma HasBit_New n j : HasBit (NewBitSet n) j = false.
+Proof.
+  rewrite HasBit_testbit. unfold NewBitSet.
+  assert (E : nth (j / 8) (repeat 0 ((n + 7) / 8)) 0 = 0).
+  { destruct (nth_in_or_default (j / 8) (repeat 0 ((n + 7) / 8)%nat) 0) as [H|H]; [|exact H].
+    apply repeat_spec in H. exact H. }
+  rewrite E. apply Z.bits_0.
+Qed.
+
+Lemma length_New n : (n <= 8 * length (NewBitSet n))%nat.
+Proof.
+  unfold NewBitSet. rewrite repeat_length.
+  pose proof (Nat.div_mod (n + 7) 8). pose proof (Nat.mod_upper_bound (n + 7) 8). lia.
+Qed.
+
+Lemma HasBit_out bs j : (8 * length bs <= j)%nat -> HasBit bs j = false.
+Proof.
+  intro H. rewrite HasBit_testbit. rewrite nth_overflow. apply Z.bits_0.
+  assert (length bs * 8 <= j)%nat by lia.
+  apply Nat.div_le_lower_bound; lia.
+Qed.
+
+Lemma wf_New n : wf_bitset (NewBitSet n).
+Proof. unfold wf_bitset, NewBitSet. apply Forall_forall. intros x H. apply repeat_spec in H. subst. lia. Qed.
+
+Lemma log2_byte x : 0 < x < 256 -> Z.log2 x < 8.
+Proof. intro H. apply Z.log2_lt_pow2; [lia|]. change (2 ^ 8) with 256. lia. Qed.
+
+Lemma lor_byte a b : 0 <= a < 256 -> 0 <= b < 256 -> 0 <= Z.lor a b < 256.
+Proof.
+  intros Ha Hb. split; [apply Z.lor_nonneg; lia|].
+  destruct (Z.eq_dec (Z.lor a b) 0) as [E|NE]; [lia|].
+  assert (0 < Z.lor a b) by (pose proof (proj2 (Z.lor_nonneg a b) (conj (proj1 Ha) (proj1 Hb))); lia).
+  change 256 with (2 ^ 8). apply Z.log2_lt_pow2; [assumption|].
+  rewrite Z.log2_lor by lia.
+  apply Z.max_lub_lt.
+  - destruct (Z.eq_dec a 0); [subst; simpl; lia|]. apply log2_byte; lia.
+  - destruct (Z.eq_dec b 0); [subst; simpl; lia|]. apply log2_byte; lia.
+Qed.
+
+Lemma bitmask_byte i : 0 <= bitmask i < 256.
+Proof.
+  unfold bitmask. rewrite Z.shiftl_1_l.
+  pose proof (Nat.mod_upper_bound i 8).
+  split; [apply Z.pow_nonneg; lia|].
+  change 256 with (2 ^ 8). apply Z.pow_lt_mono_r; lia.
+Qed.
+
+Lemma Forall_upd (P : Z -> Prop) l i f : Forall P l -> (forall x, P x -> P (f x)) -> Forall P (upd l i f).
+Proof.
+  intros H Hf. revert i. induction H as [|x l Hx Hl IH]; intros [|i]; simpl; constructor; auto.
+Qed.
+Lemma wf_SetBit bs i : wf_bitset bs -> wf_bitset (SetBit bs i).
+Proof.
+  intro H. unfold wf_bitset, SetBit. apply Forall_upd; [exact H|].
+  intros x Hx. apply lor_byte; [exact Hx | apply bitmask_byte].
+Qed.
+
+Lemma byte_ext a b : 0 <= a < 256 -> 0 <= b < 256 ->
+  (forall k, (k < 8)%nat -> Z.testbit a (Z.of_nat k) = Z.testbit b (Z.of_nat k)) -> a = b.
+Proof.
+  intros Ha Hb H. apply Z.bits_inj'. intros n Hn.
+  destruct (Z.ltb_spec n 8).
+  - specialize (H (Z.to_nat n)). rewrite Z2Nat.id in H by lia. apply H. lia.
+  - assert (forall x, 0 <= x < 256 -> Z.testbit x n = false) as HF.
+    { intros x Hx. destruct (Z.eq_dec x 0) as [->|]; [apply Z.bits_0|].
+      apply Z.bits_above_log2; [lia|].
+      assert (Z.log2 x < 8) by (apply log2_byte; lia). lia. }
+    rewrite !HF by assumption. reflexivity.
+Qed.
+
+(* equal as byte strings iff the same bits are set *)
+Lemma bitset_ext a b : length a = length b -> wf_bitset a -> wf_bitset b ->
+  (forall j, (j < 8 * length a)%nat -> HasBit a j = HasBit b j) -> a = b.
+Proof.
+  revert b. induction a as [|x a IH]; intros [|y b] HL Ha Hb H; simpl in HL; try discriminate; [reflexivity|].
+  inversion Ha as [|? ? Hx Ha']; inversion Hb as [|? ? Hy Hb']; subst.
+  f_equal.
+  - apply byte_ext; try assumption. intros k Hk.
+    specialize (H k). rewrite !HasBit_testbit in H.
+    rewrite (Nat.div_small k 8) in H by lia. rewrite (Nat.mod_small k 8) in H by lia.
+    simpl in H. apply H. lia.
+  - apply IH; try assumption; [lia|].
+    intros j Hj. specialize (H (8 + j)%nat). rewrite !HasBit_testbit in H.
+    replace ((8 + j) / 8)%nat with (S (j / 8)) in H.
+    2:{ replace (8 + j)%nat with (j + 1 * 8)%nat by lia. rewrite Nat.div_add by lia. lia. }
+    replace ((8 + j) mod 8)%nat with (j mod 8)%nat in H.
+    2:{ replace (8 + j)%nat with (j + 1 * 8)%nat by lia. rewrite Nat.mod_add by lia. reflexivity. }
+    simpl in H. rewrite !HasBit_testbit. apply H. simpl. lia.
+Qed.
+
+(* cardinality *)
+Lemma card_le a b n : (forall j, (j < n)%nat -> HasBit a j = true -> HasBit b j = true) ->
+  (card a n <= card b n)%nat.
+Proof.
+  induction n as [|k IH]; intro H; simpl; [lia|].
+  assert (card a k <= card b k)%nat by (apply IH; intros; apply H; [lia|assumption]).
+  specialize (H k (Nat.lt_succ_diag_r k)).
+  destruct (HasBit a k); destruct (HasBit b k); lia.
+Qed.
+Lemma card_subset_eq a b n : (forall j, (j < n)%nat -> HasBit a j = true -> HasBit b j = true) ->
+  card a n = card b n -> forall j, (j < n)%nat -> HasBit a j = HasBit b j.
+Proof.
+  induction n as [|k IH]; intros H E j Hj; [lia|].
+  simpl in E.
+  assert (Hle : (card a k <= card b k)%nat) by (apply card_le; intros; apply H; [lia|assumption]).
+  pose proof (H k (Nat.lt_succ_diag_r k)) as Hk.
+  destruct (Nat.eq_dec j k) as [->|Hne].
+  - destruct (HasBit a k); destruct (HasBit b k); try reflexivity; lia.
+  - apply IH; [intros; apply H; [lia|assumption] | | lia].
+    destruct (HasBit a k); destruct (HasBit b k); lia.
+Qed.
